@@ -193,14 +193,29 @@ func (w *World) staticReach(roots ...*ssa.Function) []*ssa.Function {
 	var order []*ssa.Function
 	var visit func(f *ssa.Function)
 	visit = func(f *ssa.Function) {
-		if f == nil || seen[f] || f.Blocks == nil || f.Pkg == nil || !strings.HasPrefix(f.Pkg.Pkg.Path(), M) {
+		if f == nil || seen[f] || f.Blocks == nil {
+			return
+		}
+		// bound-method closures and thunks (c.sleepLatency as a value) are synthetic and
+		// belong to no package: they are walked through, not listed
+		synthetic := f.Pkg == nil && f.Synthetic != ""
+		if !synthetic && (f.Pkg == nil || !strings.HasPrefix(f.Pkg.Pkg.Path(), M)) {
 			return
 		}
 		seen[f] = true
-		order = append(order, f)
+		if !synthetic {
+			order = append(order, f)
+		}
 		for _, i := range instrs(f) {
 			if c, ok := i.(ssa.CallInstruction); ok {
 				visit(c.Common().StaticCallee())
+			}
+			// functions used as values (handed to sync.Once.Do, stored, passed on)
+			var ops []*ssa.Value
+			for _, op := range i.Operands(ops) {
+				if fn, ok := (*op).(*ssa.Function); ok {
+					visit(fn)
+				}
 			}
 			if mc, ok := i.(*ssa.MakeClosure); ok {
 				if fn, ok := mc.Fn.(*ssa.Function); ok {
